@@ -397,6 +397,55 @@ def _flatten_agreement(ctx: Ctx):
 _run_c06 = run
 
 
+def _sentinel_discipline(ctx: Ctx):
+    """Marker values that pair generators yield in the value position (testdata: `yield (True, Ignore())` for a property
+    that may be left out) must never reach the emitted data: a function that takes values from a generator which may
+    yield the marker either hands them on unchanged (`yield from G(...)`: it may then yield the marker itself) or tests
+    for the marker (`isinstance(v, Marker)`).  A consumer without the test lets the marker through to json.dumps."""
+    idx = Index(ctx.src, dirs=("generator/plugins",))
+    n = 0
+    for rel, m in sorted(idx.modules.items()):
+        classes = {st.name for st in m.tree.body if isinstance(st, ast.ClassDef)}
+        fns = list(m.all_functions())
+        producers = {}
+        for f in fns:
+            for y in ast.walk(f):
+                if isinstance(y, ast.Yield) and isinstance(y.value, ast.Tuple) and len(y.value.elts) == 2:
+                    v = y.value.elts[1]
+                    if isinstance(v, ast.Call) and isinstance(v.func, ast.Name) and v.func.id in classes and not v.args:
+                        producers.setdefault(v.func.id, set()).add(f.name)
+        for marker, prods in sorted(producers.items()):
+            prods = set(prods)
+            changed = True
+            consumers = {}
+            while changed:
+                changed = False
+                consumers = {}
+                for f in fns:
+                    if f.name in prods:
+                        continue
+                    parents = {c_: p_ for p_ in ast.walk(f) for c_ in ast.iter_child_nodes(p_)}
+                    calls = [c for c in ast.walk(f) if isinstance(c, ast.Call) and (dotted(c.func) or "").split(".")[-1] in prods]
+                    if not calls:
+                        continue
+                    if all(isinstance(parents.get(c), ast.YieldFrom) for c in calls):
+                        prods.add(f.name)
+                        changed = True
+                    else:
+                        consumers[f.name] = (f, calls)
+            for fname, (f, calls) in sorted(consumers.items()):
+                tests = [c for c in ast.walk(f) if isinstance(c, ast.Call) and dotted(c.func) == "isinstance" and len(c.args) == 2
+                         and any(isinstance(x, ast.Name) and x.id == marker for x in ast.walk(c.args[1]))]
+                n += 1
+                ctx.check(bool(tests), "marker-values-filtered", f"{rel.split('/')[-1]}:{fname}:{marker}",
+                          f"{fname} takes values from {sorted({(dotted(c.func) or '').split('.')[-1] for c in calls})}, which may "
+                          f"yield the marker {marker}(), but never tests for it: the marker object reaches the emitted data "
+                          "(json.dumps raises TypeError) for every input that produces it", rel, calls[0].lineno,
+                          sample={"function": fname, "marker": marker})
+    ctx.floor("consumers of marker-yielding generators", n, 1)
+
+
 def run(ctx: Ctx):  # noqa: F811
     _run_c06(ctx)
     _flatten_agreement(ctx)
+    _sentinel_discipline(ctx)
